@@ -2,22 +2,10 @@
    calc_rdm_poisson; gen/Gen_C01.v) compute, for every pair of condition means, the Gram-trick quantities of CalcModel,
    hence (CalcProofs) the formulas the property names. *)
 From Coq Require Import List ZArith Reals Lra Lia.
-From RSA Require Import Prelude Vec VecR PyLib ListLib CalcModel CalcProofs.
+From RSA Require Import Prelude Vec VecR PyLib PyLibR ListLib CalcModel CalcProofs.
 From RSAGen Require Import Gen_C01.
 Import ListNotations.
 Open Scope nat_scope.
-
-Lemma triu_map_ext {A B} (f g : A -> A -> B) l : (forall a b, f a b = g a b) -> triu_map f l = triu_map g l.
-Proof.
-  intros H. induction l as [|x t IH]; [reflexivity|]. cbn [triu_map]. rewrite IH. f_equal.
-  apply map_ext. intros b. apply H.
-Qed.
-Lemma map_triu_map {A B C} (h : B -> C) (f : A -> A -> B) l : map h (triu_map f l) = triu_map (fun a b => h (f a b)) l.
-Proof. induction l as [|x t IH]; [reflexivity|]. cbn [triu_map]. rewrite map_app, map_map, IH. reflexivity. Qed.
-Lemma map2_same {A B} (f : A -> A -> B) l : map2 f l l = map (fun x => f x x) l.
-Proof. induction l as [|x t IH]; [reflexivity|]. cbn [map2 map]. rewrite IH. reflexivity. Qed.
-Lemma pairwise_ext {F} (f g : list F -> list F -> F) rows : (forall a b, f a b = g a b) -> pairwise f rows = pairwise g rows.
-Proof. intros H. unfold pairwise. apply map_ext. intros a. apply map_ext. intros b. apply H. Qed.
 
 Section Generic.
   Context {F : Type} (O : NumOps F).
@@ -69,10 +57,40 @@ Proof.
   { unfold np_mmap, prior. rewrite map_map. apply map_ext. intros a. rewrite map_map. reflexivity. }
   rewrite E. set (M' := map (prior ROps pl pw) M).
   change (np_mmap lg M') with (map (map lg) M').
-  rewrite matmulT_pairwise_r, diag_pairwise, outer_pairwise, mmap2_pairwise, T_pairwise, mmap2_pairwise,
+  rewrite matmulT_pairwise_r, (diag_pairwise ROps []), outer_pairwise, mmap2_pairwise, (T_pairwise ROps []), mmap2_pairwise,
           triu_pairwise, map_triu_map.
   apply triu_map_ext. intros a b. unfold g_poisson. cbn [nadd nsub ndiv nofZ ROps]. unfold ofnat. cbn [nofZ ROps].
   f_equal. ring.
+Qed.
+
+(* calc_rdm_mahalanobis with a given precision (after _check_noise): the Gram-trick quantity for every pair *)
+Theorem mahal_values_tie (p q : nat) (N M : list (list R)) : Forall (fun r => length r = q) N -> N <> [] ->
+  Gen_C01.mahal_values ROps (Z.of_nat p) M N = rdm_of (g_mahal ROps N p) M.
+Proof.
+  intros HN Hne. unfold Gen_C01.mahal_values, rdm_of. cbv zeta.
+  assert (length (hd [] N) = q) as Hq.
+  { destruct N as [|r N']; [congruence|]. inversion HN; subst. reflexivity. }
+  unfold np_matmul. rewrite Hq.
+  assert (np_matmulT ROps (map (fun a => vsum ROps q (map2 (vscale ROps) a N)) M) M = pairwise (bilin ROps N) M) as E.
+  { rewrite <- (map_id M) at 2.
+    rewrite (matmulT_pairwise_zip ROps (fun a => vsum ROps q (map2 (vscale ROps) a N)) (fun a => a) M).
+    apply pairwise_ext_in. intros a b _ _. unfold bilin. apply dot_vecmat. exact HN. }
+  rewrite !E.
+  rewrite (diag_pairwise ROps []), outer_pairwise, mmap_pairwise, mmap2_pairwise, triu_pairwise, map_triu_map.
+  apply triu_map_ext. intros a b. unfold g_mahal, ofnat. cbn [nadd nsub nmul ndiv nofZ ROps]. f_equal. ring.
+Qed.
+
+(* difference' * precision * difference / P for every symmetric precision *)
+Theorem gen_mahal_is_formula (p q : nat) (N M : list (list R)) : Forall (fun r => length r = q) N -> N <> [] ->
+  Forall (fun a => length a = length N) M -> (forall a b, bilin ROps N a b = bilin ROps N b a) ->
+  Gen_C01.mahal_values ROps (Z.of_nat p) M N
+  = rdm_of (fun a b => (bilin ROps N (vsub ROps a b) (vsub ROps a b) / INR p)%R) M.
+Proof.
+  intros HN Hne HM Hsym. rewrite (mahal_values_tie p q N M HN Hne). unfold rdm_of.
+  induction M as [|x t IH]; [reflexivity|]. inversion HM as [|? ? Hx Ht]; subst.
+  cbn [triu_map]. rewrite (IH Ht). f_equal. apply map_ext_in. intros b Hb.
+  rewrite Forall_forall in Ht. rewrite (g_mahal_eq N p x b) by (try congruence; try apply Hsym; rewrite (Ht b Hb); congruence).
+  unfold d_mahal, ofnat. cbn [ndiv nofZ ROps]. rewrite <- INR_IZR_INZ. reflexivity.
 Qed.
 
 (* ---- the property, stated for the generated definitions (composition with CalcProofs) ---- *)
